@@ -13,6 +13,7 @@ import (
 	"strconv"
 	"strings"
 	"sync"
+	"sync/atomic"
 	"syscall"
 	"time"
 )
@@ -66,6 +67,12 @@ func verifRoot() string {
 	return filepath.Dir(filepath.Dir(exe))
 }
 
+// watchdogHits counts wall-clock watchdog expirations of this orchestrator run. A hang is never a violation by itself
+// (inconclusive), but after maxWatchdogHits of them the run stops scheduling work and reports inconclusive (exit 2).
+var watchdogHits atomic.Int64
+
+const maxWatchdogHits = 3
+
 // RunCheck is the orchestrator entry: runs all batches of a property, writes evidence, prints verdict lines.
 // Returns the process exit code.
 func RunCheck(id, tier string, seed uint64, replay string) int {
@@ -106,6 +113,11 @@ func RunCheck(id, tier string, seed uint64, replay string) int {
 		go func(b int) {
 			defer wg.Done()
 			defer func() { <-sem }()
+			if watchdogHits.Load() >= maxWatchdogHits {
+				// the workload keeps hanging: the remaining batches would each burn a full watchdog period
+				results[b] = &batchResult{sigsNT: map[string]struct{}{}, cnt: map[string]int64{}, sets: map[string]map[string]struct{}{}, incs: []string{"batch not run: repeated watchdog expirations"}}
+				return
+			}
 			results[b] = runBatch(p, root, scratch, tier, seed, b)
 		}(b)
 	}
@@ -262,6 +274,10 @@ func RunCheck(id, tier string, seed uint64, replay string) int {
 	if len(total.incs) > 0 {
 		fmt.Printf("INCONCLUSIVE cases: %d (see evidence)\n", len(total.incs))
 	}
+	if watchdogHits.Load() >= maxWatchdogHits {
+		fmt.Printf("INCONCLUSIVE property=%s: the workload hung %d times (watchdog); goroutine dumps are under replays/%s/watchdog-*.txt\n", id, watchdogHits.Load(), id)
+		return 2
+	}
 	if len(total.sigsNT) < minNT {
 		fmt.Printf("INCONCLUSIVE property=%s: monitors observed too little (%d distinct non-trivial cases)\n", id, len(total.sigsNT))
 		return 2
@@ -314,6 +330,7 @@ func runBatch(p *Prop, root, scratch, tier string, seed uint64, b int) *batchRes
 		case werr = <-done:
 		case <-time.After(to):
 			timedOut = true
+			watchdogHits.Add(1)
 			cmd.Process.Signal(syscall.SIGQUIT) // goroutine dump into stderr file
 			select {
 			case werr = <-done:
@@ -365,6 +382,10 @@ func runBatch(p *Prop, root, scratch, tier string, seed uint64, b int) *batchRes
 		}
 		from = wal.I + 1
 		os.RemoveAll(dir)
+		if watchdogHits.Load() >= maxWatchdogHits {
+			res.incs = append(res.incs, "batch abandoned: repeated watchdog expirations")
+			return res
+		}
 	}
 	res.incs = append(res.incs, "too many worker deaths in one batch")
 	return res
